@@ -7,6 +7,7 @@ import Driver.Codec
 import Driver.Ctl
 import Driver.Xml
 import Driver.Theme
+import Driver.Expr
 open Svgdx Driver
 
 def errLine (e : Err) : String := joinFields [cs!"err", e.name.toList]
@@ -167,7 +168,10 @@ def handle (line : String) : String :=
         | none =>
           match handleTheme op args with
           | some r => r
-          | none => "bad-op"
+          | none =>
+            match Driver.handleExpr op args with
+            | some r => r
+            | none => "bad-op"
   | [] => "bad-op"
 
 partial def loop (h : IO.FS.Stream) (out : IO.FS.Stream) : IO Unit := do
